@@ -191,3 +191,8 @@ package eni
 //@   loop 2 invariant toDel <= idles - m.maxIdles
 //@ guard call NetworkInterface.Dispose in syncPool: arg0 > 0 && arg0 <= idles - m.maxIdles
 //@ guard go Manager.syncPool$1 in syncPool: idles + inuses < m.total && i < m.minIdles - idles
+
+//@ for C06
+//@ # the addresses of a freshly created interface are entered one by one with their primary flag; the bulk insert (which
+//@ # knows no primary) is used for the IPv6 set only — otherwise a later shrink could unassign the primary address
+//@ guard call Set.PutValid#1 in factoryAllocWorker: recv == l.ipv6
